@@ -5,6 +5,30 @@ from crlib import repo, time_limit, quiet, Timeout
 
 THR = 10 ** (-6)
 
+# every DEBUG_EVERY-th call of a runner below is made with the root logger at DEBUG level (output still
+# suppressed): code guarded by "if the log level is DEBUG" and the arguments of logging.debug(...) calls are
+# then exercised, and the usual oracles judge the result — the log level must not change behaviour
+DEBUG_EVERY = 3
+_calls = {"n": 0}
+
+
+import contextlib as _ctxlib
+import logging as _logging
+
+
+@_ctxlib.contextmanager
+def maybe_debug():
+    _calls["n"] += 1
+    root = _logging.getLogger()
+    old = root.level
+    dbg = DEBUG_EVERY and _calls["n"] % DEBUG_EVERY == 0
+    if dbg:
+        root.setLevel(_logging.DEBUG)
+    try:
+        yield dbg
+    finally:
+        root.setLevel(old)
+
 
 def err_kind(e):
     """Map an exception to a small enum; messages are never compared as text."""
@@ -52,7 +76,7 @@ def solve_inplace(g, prune=True, limit=10.0, want_nodes=True, sg=None):
     try:
         if want_nodes:
             tad.Solver = RecordingSolver
-        with quiet(), time_limit(limit):
+        with quiet(), time_limit(limit), maybe_debug():
             if sg is None:
                 sg = tad.StochasticGame(**g, prune_states=prune) if "prune_states" not in g \
                     else tad.StochasticGame(**g)
@@ -81,7 +105,7 @@ def reach_only(game, prune=False, thr=THR, limit=10.0):
     g = copy.deepcopy({k: v for k, v in game.items() if not k.startswith("_")})
     out = {}
     try:
-        with quiet(), time_limit(limit):
+        with quiet(), time_limit(limit), maybe_debug():
             sg = tad.StochasticGame(**g, prune_states=prune)
             sg.check_game()
             sl = sg.init_states()
@@ -105,7 +129,7 @@ def prune_only(game, limit=10.0):
     g = copy.deepcopy({k: v for k, v in game.items() if not k.startswith("_")})
     out = {}
     try:
-        with quiet(), time_limit(limit):
+        with quiet(), time_limit(limit), maybe_debug():
             sg = tad.StochasticGame(**g, prune_states=False)
             sg.check_game()
             sl = sg.init_states()
@@ -129,7 +153,7 @@ def prune_only(game, limit=10.0):
 def rdfs(tl, finals, limit=20.0):
     m = repo("reverse_dfs")
     try:
-        with quiet(), time_limit(limit):
+        with quiet(), time_limit(limit), maybe_debug():
             r = m.reverse_dfs(copy.deepcopy(tl), list(finals))
         return {"outcome": "ok", "res": r}
     except Timeout:
@@ -143,7 +167,7 @@ def rdfs(tl, finals, limit=20.0):
 def rev_table(tl, limit=20.0):
     m = repo("reverse_dfs")
     try:
-        with quiet(), time_limit(limit):
+        with quiet(), time_limit(limit), maybe_debug():
             r = m.reverse_transition_list(copy.deepcopy(tl))
         return {"outcome": "ok", "res": r}
     except Timeout:
